@@ -51,6 +51,12 @@ def _run(prop, root, overrides, tier="quick"):
     return sink
 
 
+def _unlisted(prop, sink):
+    """Violated obligations that no open known finding covers."""
+    _listed, unlisted = split_known(prop, sink.obs)
+    return [o for o, _k in unlisted]
+
+
 def eval_variant(args):
     """Worker: returns (variant name, prop, status, detail)."""
     vname, prop, root = args
@@ -65,7 +71,7 @@ def eval_variant(args):
         return (vname, prop, "error", str(exc))
     except Exception as exc:  # pylint: disable=broad-except
         return (vname, prop, "error", f"{type(exc).__name__}: {exc}")
-    bad = [o for o in sink.obs if o.verdict == VIOLATED]
+    bad = _unlisted(prop, sink)
     unk = [o for o in sink.obs if o.verdict == UNRECOGNISED]
     if prop in v.breaks:
         want = v.breaks[prop]
@@ -148,7 +154,7 @@ def eval_benign(args):
         sink = _run(prop, root, ov)
     except Exception as exc:  # pylint: disable=broad-except
         return (bid, prop, "error", f"{type(exc).__name__}: {exc}")
-    bad = [o for o in sink.obs if o.verdict == VIOLATED]
+    bad = _unlisted(prop, sink)
     unk = [o for o in sink.obs if o.verdict == UNRECOGNISED]
     if bad:
         return (bid, prop, "false-alarm", f"{bad[0].rule} [{bad[0].key}] {bad[0].msg[:160]}")
@@ -166,7 +172,7 @@ def eval_seed(args):
         sink = _run(prop, root, ov)
     except Exception as exc:  # pylint: disable=broad-except
         return (sid, prop, "error", f"{type(exc).__name__}: {exc}")
-    bad = [o for o in sink.obs if o.verdict == VIOLATED]
+    bad = _unlisted(prop, sink)
     unk = [o for o in sink.obs if o.verdict == UNRECOGNISED]
     if bad:
         return (sid, prop, "detected", f"{bad[0].rule} [{bad[0].key}] {bad[0].msg[:160]}")
